@@ -248,9 +248,15 @@ def _get_array_check_statistics(
             "less_than_or_equal_to": x.max(),
         }
     elif dtypes.is_numeric(data_type) and not dtypes.is_bool(data_type):
+        # integers beyond 2**53 are not exactly representable as float
+        cast = (
+            int
+            if dtypes.is_int(data_type) or dtypes.is_uint(data_type)
+            else float
+        )
         check_stats = {
-            "greater_than_or_equal_to": float(x.min()),
-            "less_than_or_equal_to": float(x.max()),
+            "greater_than_or_equal_to": cast(x.min()),
+            "less_than_or_equal_to": cast(x.max()),
         }
     elif dtypes.is_category(data_type):
         try:
